@@ -355,7 +355,17 @@ impl SwarmDriver {
         let pretty_key = PrettyPrintRecordKey::from(&peer_record.record.key).into_owned();
 
         if let Entry::Occupied(mut entry) = self.pending_get_record.entry(query_id) {
-            let (_key, _senders, result_map, cfg) = entry.get_mut();
+            let (key, _senders, result_map, cfg) = entry.get_mut();
+
+            // libp2p-kad hands over whatever record a peer answered with: a copy that comes under
+            // another key than the one requested must not count towards the quorum for this key.
+            if peer_record.record.key != *key {
+                warn!(
+                    "For record {:?} task {query_id:?}, ignoring a copy from {peer_id:?} that is keyed {pretty_key:?}",
+                    PrettyPrintRecordKey::from(&*key)
+                );
+                return Ok(());
+            }
 
             if !cfg.expected_holders.is_empty() {
                 if cfg.expected_holders.remove(&peer_id) {
